@@ -300,6 +300,7 @@ type atpsItem struct {
 	WsStep  string
 	WsSrc   int64
 	WsSrcOK bool
+	WsValid bool // the config is what the step's input schema accepts (name string, src number, beh string or absent)
 	SgOK    bool
 }
 
@@ -343,6 +344,15 @@ func atpsClassifyStream(stream []byte, off int, first bool) (items []atpsItem, n
 			it.WsOK = true
 			it.WsStep = ws.StepID
 			if m, ok := ws.Config.(map[any]any); ok {
+				_, nameOK := m["name"].(string)
+				behV, hasBeh := m["beh"]
+				_, behOK := behV.(string)
+				it.WsValid = nameOK && (!hasBeh || behOK)
+				for k := range m {
+					if ks, ok := k.(string); !ok || (ks != "name" && ks != "beh" && ks != "src") {
+						it.WsValid = false
+					}
+				}
 				switch n := m["src"].(type) {
 				case uint64:
 					it.WsSrc, it.WsSrcOK = int64(n), true
@@ -684,6 +694,33 @@ func atpsRunSession(sess *atpsSession, to atpsTimeouts) (out atpsOutcome) {
 		}
 	}
 	outputOpen := !outputBroken && !cancelled && !serverFatalSeen
+	if out.End == "returned" && outputOpen {
+		// an accepted work-start for a step without failing initializer, with input the schema
+		// accepts, must reach its handler (whatever its run ID was used for before)
+		reach2 := true
+		for i, it := range items {
+			if i == 0 {
+				reach2 = !it.Bad
+				continue
+			}
+			if !reach2 || it.Bad {
+				reach2 = false
+				continue
+			}
+			if it.Decoded.MessageID == atp.MessageTypeClientDone {
+				reach2 = false
+				continue
+			}
+			if it.accepted() && (it.WsStep == "hello" || it.WsStep == "init") && it.WsValid && it.WsSrcOK && int(it.WsSrc) == i {
+				r.mu.Lock()
+				entered := r.entered[i]
+				r.mu.Unlock()
+				if !entered {
+					out.Findings = append(out.Findings, fmt.Sprintf("the valid work-start at stream position %d (run %q, step %q) was answered without its step handler being called", i, it.Decoded.RunID, it.WsStep))
+				}
+			}
+		}
+	}
 	if out.End == "returned" {
 		runs := map[int]bool{}
 		for k := range expected {
@@ -1037,6 +1074,13 @@ func atpsDirected(nextID func() int) []*atpsSession {
 		withInit(1, mk("initializer panics: then signalled", send(atpsWS("r1", "pinit", "a", "ok", 1)), atpsAction{Op: "settle"}, send(atpsWS("r2", "pinit", "b", "ok", 2)), send(atpsSig("r2", "sig", "ok")), send(atpsSig("r1", "sig", "ok")), atpsAction{Op: "settle"}, rel(2), send(atpsClientDone()))),
 		withInit(2, mk("initializer panics in the step and again in its signal's goroutine", send(atpsWS("r1", "pinit", "a", "ok", 1)), atpsAction{Op: "settle"}, send(atpsSig("r1", "sig", "ok")), atpsAction{Op: "settle"}, send(atpsWS("r2", "pinit", "b", "ok", 3)), rel(3), send(atpsClientDone()))),
 		withInit(2, mk("initializer panics twice, third run fine, EOF", send(atpsWS("r1", "pinit", "a", "ok", 1)), send(atpsWS("r2", "pinit", "b", "ok", 2)), send(atpsWS("r3", "pinit", "c", "ok", 3)), atpsAction{Op: "closeInput"}, rel(1), rel(2), rel(3))),
+	)
+	// a run ID reused after its execution completed (runningSteps is never pruned; the model's
+	// `running` list is not either, and a repeated run ID is accepted)
+	out = append(out,
+		mk("run ID reused after success", send(atpsWS("r1", "hello", "a", "ok", 1)), rel(1), atpsAction{Op: "settle"}, send(atpsWS("r1", "init", "b", "ok", 2)), rel(2), atpsAction{Op: "settle"}, send(atpsSig("r1", "sig", "ok")), send(atpsClientDone())),
+		mk("run ID reused after an unknown step and after rejected input", send(atpsWS("r1", "no-such-step", "a", "ok", 1)), atpsAction{Op: "settle"}, send(atpsWS("r1", "hello", "b", "ok", 2)), rel(2), atpsAction{Op: "settle"},
+			send(map[string]any{"id": uint32(1), "run_id": "r2", "data": map[string]any{"id": "hello", "config": map[string]any{"src": 3}}}), atpsAction{Op: "settle"}, send(atpsWS("r2", "hello", "c", "errout", 4)), rel(4), atpsAction{Op: "settle"}, send(atpsWS("r1", "hello", "d", "panic", 5)), rel(5), send(atpsClientDone())),
 	)
 	// duplicate run IDs
 	out = append(out,
